@@ -42,3 +42,14 @@ Example C25_example :
    (["Int"], "j:", false, false); (["Int"], "k:", false, false); (["Float"], "o:", false, true)]
   /\ convert_arguments conv0 (example_ft true) = convert_arguments conv0 (example_ft false).
 Proof. vm_compute. split; reflexivity. Qed.
+
+(* the conversion of a type terminates on every document, type aliases that name each other included: fuel beyond the
+   size of the type plus the sizes of the alias definitions is never exhausted *)
+From RT Require Import Proofs.Rbs2JsonTermP.
+Theorem C25_convert_type_terminates : forall f al cname t, rsize t + asize al < f -> convert_type f al cname t <> None.
+Proof. exact convert_type_total. Qed.
+Print Assumptions C25_convert_type_terminates.
+
+Example C25_cyclic_aliases :
+  convert_type 10 [("a", RT "alias" "b" [] None [] ""); ("b", RT "alias" "a" [] None [] "")] "Widget" (RT "alias" "a" [] None [] "") = Some ["Untyped"].
+Proof. vm_compute. reflexivity. Qed.
